@@ -85,7 +85,7 @@ func maxInt(a, b int) int {
 
 func TestC12L1(t *testing.T) {
 	rec := evid.For("C12")
-	runRapid(t, 1500, 20000, func(rt *rapid.T) {
+	runRapid(t, 800, 20000, func(rt *rapid.T) {
 		c := rec.Begin()
 		c.Class("L1")
 		e := henv.NewL1(henv.L1Options{NoHook: true})
@@ -276,7 +276,7 @@ func inList(list []string, s string) bool {
 
 func TestC12L2(t *testing.T) {
 	rec := evid.For("C12")
-	runRapid(t, 1500, 20000, func(rt *rapid.T) {
+	runRapid(t, 800, 20000, func(rt *rapid.T) {
 		c := rec.Begin()
 		c.Class("L2")
 		var users []henv.User
